@@ -180,7 +180,16 @@ func visitInstr(fr *frame, instr ssa.Instruction) continuation {
 			r.pendingGo = append(r.pendingGo, pendingGo{fn, args})
 		}
 
-	case *ssa.Send, *ssa.Select:
+	case *ssa.Send:
+		ch, ok := fr.get(instr.Chan).(*schan)
+		if !ok || ch == nil {
+			panic(engineError{"send on a channel the engine does not model"})
+		}
+		// a send never blocks in this model: what matters is the order in
+		// which receivers may see the values of different senders
+		ch.items = append(ch.items, chanItem{g: r.curG, v: copyVal(fr.get(instr.X))})
+
+	case *ssa.Select:
 		panic(engineError{fmt.Sprintf("unsupported instruction %T in %s", instr, fr.fn)})
 
 	case *ssa.Store:
@@ -213,7 +222,7 @@ func visitInstr(fr *frame, instr ssa.Instruction) continuation {
 		*defers = &deferred{fn: fn, args: args, instr: instr, tail: *defers}
 
 	case *ssa.MakeChan:
-		fr.env[instr] = &opaque{tag: "chan"}
+		fr.env[instr] = &schan{}
 
 	case *ssa.Alloc:
 		var addr *value
@@ -874,7 +883,59 @@ type pendingGo struct {
 // runGoroutine executes a spawned function to completion; a panic in it
 // crashes the program (as in Go), which the caller sees as a target panic.
 func (r *run) runGoroutine(fr *frame, fn value, args []value) {
+	saved := r.curG
+	r.nextG++
+	r.curG = r.nextG
+	defer func() { r.curG = saved }()
 	r.call(nil, token.NoPos, fn, args)
+}
+
+// Channels (bounded model): a queue of (sender, value) pairs.  Sends never
+// block; a receive takes the earliest pending value of any one sender (the
+// values of one sender stay in order, different senders arrive in any order),
+// or first lets a goroutine that was not yet scheduled run.
+type schan struct {
+	items  []chanItem
+	closed bool
+}
+
+type chanItem struct {
+	g int
+	v value
+}
+
+func (r *run) chanRecv(ch *schan, elem types.Type) (value, bool) {
+	for {
+		var heads []int
+		seen := map[int]bool{}
+		for i, it := range ch.items {
+			if !seen[it.g] {
+				seen[it.g] = true
+				heads = append(heads, i)
+			}
+		}
+		n := len(heads) + len(r.pendingGo)
+		if n == 0 {
+			if ch.closed {
+				return zero(elem), false
+			}
+			r.facts["blocked"] = "receives from a channel nobody sends on any more"
+			panic(pathEnd{"blocked on a channel receive"})
+		}
+		k := 0
+		if n > 1 {
+			k = r.chooseFree(n, "channel-arrival")
+		}
+		if k < len(heads) {
+			it := ch.items[heads[k]]
+			ch.items = append(ch.items[:heads[k]:heads[k]], ch.items[heads[k]+1:]...)
+			return it.v, true
+		}
+		g := r.pendingGo[k-len(heads)]
+		j := k - len(heads)
+		r.pendingGo = append(r.pendingGo[:j:j], r.pendingGo[j+1:]...)
+		r.runGoroutine(nil, g.fn, g.args)
+	}
 }
 
 func (r *run) flushGoroutines() {
